@@ -4,7 +4,9 @@ import WpModel.Drive.C14Tags
 import WpModel.Drive.C14Groups
 import WpModel.Drive.C14Percent
 import WpModel.Drive.C14Sheet
+import WpModel.Drive.C14Marks
 
 def main : IO Unit :=
   Wp.Drive.runDriver [Wp.Drive.C14.handle, Wp.Drive.C14Tags.handle, Wp.Drive.C14Groups.handle,
-    Wp.Drive.C14Percent.handle, Wp.Drive.C14Sheet.handle]
+    Wp.Drive.C14Percent.handle, Wp.Drive.C14Sheet.handle,
+    Wp.Drive.C14Marks.handle]
